@@ -177,10 +177,16 @@ def exec_for(ex: Any, s: ast.For, st: State) -> Iterator[Tuple[str, Any, State]]
         for _, st1 in ex.ev(s.iter, st):
             yield "fall", None, st1
         return
-    for it, st1 in ex.ev(s.iter, st):
+    # `for k, x in enumerate(L)`: the loop runs over L; the target gets the pair (position, element)
+    enum = (isinstance(s.iter, ast.Call) and isinstance(s.iter.func, ast.Name) and s.iter.func.id == "enumerate"
+            and len(s.iter.args) == 1 and not s.iter.keywords and "enumerate" not in st.env
+            and "enumerate" not in st.fi.globals)
+    for it, st1 in ex.ev(s.iter.args[0] if enum else s.iter, st):
         invs = find_invariants(ex, s, st1)
         items = ex.concrete_items(it, st1) if not invs else None
         if items is not None:
+            if enum:
+                items = [VTuple([VInt(k), x]) for k, x in enumerate(items)]
             yield from unrolled(ex, s, items, 0, st1)
             continue
         if not invs:
@@ -191,7 +197,7 @@ def exec_for(ex: Any, s: ast.For, st: State) -> Iterator[Tuple[str, Any, State]]
             it, st1 = ex.new_list(T.Int, "seq", st1, [VInt(k) for k in it.obj])
         if not isinstance(it, VList) or it.view != "seq":
             raise Unsupported(f"invariant loop over {it!r}")
-        yield from invariant_loop(ex, s, st1, invs, it)
+        yield from invariant_loop(ex, s, st1, invs, it, enum)
 
 
 def unrolled(ex: Any, s: ast.For, items: List[V], i: int, st: State) -> Iterator[Tuple[str, Any, State]]:
@@ -211,7 +217,7 @@ def unrolled(ex: Any, s: ast.For, items: List[V], i: int, st: State) -> Iterator
             yield kind, payload, st2
 
 
-def invariant_loop(ex: Any, s: Any, st: State, invs: List[Any], it: Optional[VList]) -> Iterator[Tuple[str, Any, State]]:
+def invariant_loop(ex: Any, s: Any, st: State, invs: List[Any], it: Optional[VList], enum: bool = False) -> Iterator[Tuple[str, Any, State]]:
     is_for = isinstance(s, ast.For)
     where = f"{ex.fi.file}:{s.lineno}"
     if is_for:
@@ -260,7 +266,7 @@ def invariant_loop(ex: Any, s: Any, st: State, invs: List[Any], it: Optional[VLi
             x = ex.list_get(it, idx.term, st_body)
             if isinstance(x, (VRef, VEnum, VUnion)):
                 st_body = st_body.assume(ex.type_constraint(x))
-            st_body = ex.assign_target(s.target, x, st_body)
+            st_body = ex.assign_target(s.target, VTuple([idx, x]) if enum else x, st_body)
             if isinstance(s.target, ast.Name):
                 # the position of the current element, for invariants of loops nested in this one (`i_<loop variable>`)
                 st_body = st_body.bind("i_" + s.target.id, idx)
